@@ -284,6 +284,9 @@ func (e *Enc) pureUF(key string, i int, args []*Val, rt types.Type, tok string) 
 		}
 	}
 	// a function of plain values (integers, strings, booleans) cannot depend on the heap
+	if fc := e.prog.Contracts[key]; fc != nil && fc.Const {
+		heapDep = false
+	}
 	if heapDep {
 		sorts = append(sorts, sortTok)
 		terms = append(terms, tok)
@@ -424,6 +427,8 @@ func (f *Frame) applyContract(x ssa.Value, fc *FuncContract, fn *ssa.Function, k
 					e.havocAll(st)
 				}
 			}
+			e.bumpTok(st)
+		} else if fc.ModGhost {
 			e.bumpTok(st)
 		}
 	}
